@@ -50,7 +50,7 @@ Twins == { << i, i >> : i \in CatIds }
 Variants == { << 3, 4 >>, << 4, 5 >>, << 3, 6 >>, << 22, 23 >>, << 22, 24 >>, << 16, 17 >>,
               << 26, 27 >>, << 41, 42 >>, << 41, 43 >>, << 50, 51 >>, << 59, 60 >>, << 28, 29 >>,
               << 5, 3 >>, << 23, 22 >>, << 42, 41 >>, << 1, 2 >>, << 48, 55 >>, << 33, 34 >>,
-              << 63, 67 >> }
+              << 63, 67 >>, << 11, 71 >>, << 71, 11 >>, << 72, 73 >>, << 73, 72 >> }
 \* entries whose histories are enumerated deeper: a stock node with strings, a
 \* user dataclass node, a legacy node, a legacy subclass of a dataclass node,
 \* a node that does not cache its hash, a compiled expression
@@ -128,7 +128,7 @@ SlotAfter(p, o) == IF Caches(heap[p][o].tree) THEN ImplH(p, o) ELSE 0
 ImplSame(p, o1, o2) == ImplH(p, o1) = ImplH(p, o2)
                        /\ ObjPyEq(heap[p][o1].tree, heap[p][o2].tree)
 ImplDigest(p, o, kind) ==
-    LET s == StructOf(heap[p][o].tree) IN
+    LET s == StructFor(kind, heap[p][o].tree) IN
     IF Buggy_DigestUsesProcess THEN 100 * p + s ELSE s
 ImplCall(p, o, args) ==
     LET t == heap[p][o].tree IN
